@@ -131,3 +131,109 @@ def check(kind):
     r['stats'] = dict(paths=2, queries=ctx.queries, asserts=ctx.asserts, asserts_proved=ctx.asserts - len(ctx.violations), solver_s=ctx.solver_s, steps=ctx.asserts)
     r['wall'] = round(time.time() - t0, 2)
     return r
+
+# ---------------------------------------------------------------------------------------------------------------------------
+# C18.depth: the cartesian node loops of main() - every node lies inside the requested box and its 'Depth' is the distance below
+# the top of the grid.  Reads the assignments grid_x/grid_y/grid_z/grid_depth[counter] = e; counter++ from the AST (local const
+# declarations are substituted) and proves the relations over the reals for all bounds, cell counts and loop indices.
+QUOT = {}; SIDE = []
+def _real(t, env, defs, depth=0):
+    if depth > 40: raise astx.AstxError('definition chain too deep')
+    k = t[0]
+    if k == 'int': return z3.RealVal(t[1])
+    if k == 'float': return z3.RealVal(str(t[1]))
+    if k == 'var':
+        n = t[1]
+        if n in env: v = env[n]; return z3.ToReal(v) if z3.is_int(v) else v
+        if n in defs: return _real(defs[n], env, defs, depth + 1)
+        raise astx.AstxError('unbound variable in a node expression: ' + n)
+    if k == 'un' and t[1] == '-': return -_real(t[2], env, defs, depth + 1)
+    if k == 'bin':
+        if t[1] in ('+', '-', '*', '/'):
+            a, b = _real(t[2], env, defs, depth + 1), _real(t[3], env, defs, depth + 1)
+            if t[1] == '/':
+                # quotient as a fresh real q with q*b == a (the divisors here are cell counts, assumed >= 1): keeps the queries polynomial
+                key = (a.get_id(), b.get_id())
+                if key not in QUOT:
+                    q = z3.Real('q%d' % len(QUOT)); QUOT[key] = q; SIDE.append(q * b == a)
+                return QUOT[key]
+            return a + b if t[1] == '+' else a - b if t[1] == '-' else a * b
+        raise astx.AstxError('operator in a node expression: ' + t[1])
+    if k == 'cond': return z3.If(_bool(t[1], env, defs, depth + 1), _real(t[2], env, defs, depth + 1), _real(t[3], env, defs, depth + 1))
+    raise astx.AstxError('node expression shape: ' + astx.term_str(t))
+
+def _bool(t, env, defs, depth=0):
+    if t[0] == 'bin' and t[1] in ('==', '!=', '<', '<=', '>', '>='):
+        a, b = _real(t[2], env, defs, depth + 1), _real(t[3], env, defs, depth + 1)
+        return {'==': a == b, '!=': a != b, '<': a < b, '<=': a <= b, '>': a > b, '>=': a >= b}[t[1]]
+    if t[0] == 'var' and t[1] in env and z3.is_bool(env[t[1]]): return env[t[1]]
+    if t[0] == 'int': return z3.BoolVal(bool(t[1]))
+    if t[0] == 'un' and t[1] == '!': return z3.Not(_bool(t[2], env, defs, depth + 1))
+    raise astx.AstxError('condition shape: ' + astx.term_str(t))
+
+def check_depth():
+    t0 = time.time(); ctx = Ctx()
+    r = dict(id='C18.depth', case=[], verdict='PROVED', violations=[], undecided=[], stats={}, reached={}, called=['main (source/gwb-grid/main.cc, Clang AST): cartesian node loops'], axioms=[], validated=0, validation_mismatch=[], wall=0, samples=[])
+    try:
+        tree = astx.main_tree(SRC, ['-I' + os.path.join(build.REPO, 'include', 'vtu11')])
+        blocks = astx.find(tree, lambda x: x[0] == 'if' and x[1][0] == 'call' and x[1][1] == 'operator==' and ('var', 'grid_type') in x[1][2] and ('str', 'cartesian') in x[1][2])
+        if len(blocks) != 1: raise astx.AstxError('expected one `if (grid_type == "cartesian")` block, found %d' % len(blocks))
+        R = lambda n: z3.Real(n); I = lambda n: z3.Int(n)
+        base = {n: R(n) for n in ('x_min', 'x_max', 'y_min', 'y_max', 'z_min', 'z_max')}
+        base.update({n: R(n) for n in ('n_cell_x', 'n_cell_y', 'n_cell_z')}); base['dim'] = I('dim')      # counts and indices as reals: integrality enters only as "i < n => i <= n-1"
+        QUOT.clear(); del SIDE[:]
+        base['compress_size'] = z3.Bool('compress_size')
+        pre = [base['x_max'] >= base['x_min'], base['y_max'] >= base['y_min'], base['z_max'] >= base['z_min'], base['n_cell_x'] >= 1, base['n_cell_y'] >= 1, base['n_cell_z'] >= 1, z3.Or(base['dim'] == 2, base['dim'] == 3)]
+        nodes = []
+        def walk(tr, env, defs, asm, cur):
+            k = tr[0]
+            if k == 'seq':
+                defs = dict(defs); cur = dict(cur)
+                for c in tr[1]: walk(c, env, defs, asm, cur)
+            elif k == 'decl':
+                for n, v in tr[1]:
+                    if v is not None and n not in ('counter',): defs[n] = v
+            elif k == 'for':
+                var, lo, cond, body = tr[1], tr[2], tr[3], tr[4]
+                if var is None or lo is None or cond is None or cond[0] != 'bin' or cond[1] not in ('<', '<=') or cond[2] != ('var', var): return      # not a counting loop over nodes
+                v = R('loop_' + var); e2 = dict(env); e2[var] = v
+                try: bound = _real(cond[3], env, defs)
+                except astx.AstxError: return
+                a2 = asm + [v >= _real(lo, env, defs), (v <= bound - 1) if cond[1] == '<' else (v <= bound)]
+                walk(body, e2, defs, a2, cur)
+            elif k == 'if':
+                try: c = _bool(tr[1], env, defs)
+                except astx.AstxError: c = None
+                walk(tr[2], env, defs, asm + ([c] if c is not None else []), dict(cur)); walk(tr[3], env, defs, asm + ([z3.Not(c)] if c is not None else []), dict(cur))
+            elif k == 'expr':
+                e = tr[1]
+                if e[0] == 'bin' and e[1] == '=' and e[2][0] == 'idx' and e[2][1][0] == 'var' and e[2][1][1] in ('grid_x', 'grid_y', 'grid_z', 'grid_depth') and e[2][2] == ('var', 'counter'):
+                    cur[e[2][1][1]] = (e[3], dict(defs))
+                elif e[0] == 'un' and e[1] in ('++',) and e[2] == ('var', 'counter'):
+                    if cur: nodes.append((dict(cur), dict(env), list(asm))); cur.clear()
+        walk(blocks[0][2], base, {}, pre, {})
+        ctx.asserts += 1
+        if len(nodes) < 2: raise astx.AstxError('found %d node assignments in the cartesian block' % len(nodes))
+        names = []
+        for cur, env, asm in nodes:
+            val = {}
+            for arr, (e, defs) in cur.items(): val[arr] = _real(e, env, defs)
+            desc = ', '.join('%s = %s' % (a, astx.term_str(cur[a][0])) for a in sorted(cur))
+            ctx.asserts += 1
+            if not all(a in val for a in ('grid_x', 'grid_z', 'grid_depth')):
+                ctx.violations.append(dict(kind='assert', what='every cartesian node gets x, z and depth', detail=desc, inputs=[], native=None)); continue
+            asm = asm + SIDE
+            ctx.prove(val['grid_depth'] == env['z_max'] - val['grid_z'], asm, "'Depth' is the distance below the top of the grid", desc, names)
+            ctx.prove(z3.And(val['grid_z'] >= env['z_min'], val['grid_z'] <= env['z_max'], val['grid_x'] >= env['x_min'], val['grid_x'] <= env['x_max']), asm, 'every node lies inside the requested box', desc, names)
+            if 'grid_y' in val: ctx.prove(z3.And(val['grid_y'] >= env['y_min'], val['grid_y'] <= env['y_max']), asm, 'every node lies inside the requested box', desc, names)
+        r['samples'].append(dict(obligation='C18.depth', node_assignments=len(nodes)))
+        r['violations'] = ctx.violations
+        if ctx.violations: r['verdict'] = 'VIOLATED'
+        for n in ctx.notes: r['undecided'].append(n)
+        if ctx.notes and not ctx.violations: r['verdict'] = 'UNDECIDED'
+        r['reached'] = {'__path_END': 1, 'node assignments': len(nodes)}
+    except astx.AstxError as e:
+        r['verdict'] = 'ENCODING-ERROR'; r['undecided'].append(('astx', str(e)))
+    r['stats'] = dict(paths=2, queries=ctx.queries, asserts=ctx.asserts, asserts_proved=ctx.asserts - len(ctx.violations), solver_s=ctx.solver_s, steps=ctx.asserts)
+    r['wall'] = round(time.time() - t0, 2)
+    return r
